@@ -145,6 +145,39 @@ def run(ctx):
                ('quantized_dtype', ext('jax.numpy.float32')), ('extract_diagonal', const(False)), ('shape', T('list'))))
   r = ev.run(ft, args={'self': selfrec})
   ctx.ob('C11.Q5', ft.short, 'empty payload passes through', r.op == 'list' and not r.args, 'to_float of an empty QuantizedValue must return []', ctx.loc(ft), sample='[] -> []', trivial=True)
+  # the same for an integer dtype (where the non-empty path would multiply by the bucket), and a non-empty payload must NOT take the shortcut
+  for dtn in ('int8', 'int16', 'bfloat16'):
+    rec_e = T('rec', m.cls(QM, 'QuantizedValue').fq,
+              (('quantized', T('list')), ('diagonal', T('list')), ('bucket_size', T('list')),
+               ('quantized_dtype', ext('jax.numpy.' + dtn)), ('extract_diagonal', const(False)), ('shape', T('list'))))
+    r = evaluator(m).run(ft, args={'self': rec_e})
+    ctx.ob('C11.Q5', ft.short, f'empty payload passes through [{dtn}]', r.op == 'list' and not r.args,
+           f'to_float of an empty QuantizedValue ({dtn}) must return [] (statistics-free parameters carry empty quantized values); got `{show(r, maxdepth=3)[:100]}`',
+           ctx.loc(ft), sample='[] -> []')
+  # from_float_value([]) is the all-empty record - decided on the witness input, not left as an undecided branch
+  for ed in (False, True):
+    r = evaluator(m, opaque={'quantize'}).run(ff, args={'fvalue': T('list'), 'quantized_dtype': ext('jax.numpy.int8'), 'extract_diagonal': const(ed)})
+    fe = rec_fields(r)
+    ok = fe is not None and all(fe[k].op == 'list' and not fe[k].args for k in ('quantized', 'diagonal', 'bucket_size', 'shape'))
+    ctx.ob('C11.Q5', ff.short, f'from_float_value([]) is the empty record [diag={ed}]', ok,
+           f'an empty list must map to QuantizedValue([], [], [], dtype, flag, []) without calling quantize; got `{show(r, maxdepth=3)[:120]}`', ctx.loc(ff),
+           sample='[] -> QuantizedValue([], [], [], ...)')
+  # validation rejects exactly the invalid inputs (witness ranks): extract_diagonal needs rank 2, anything needs rank >= 1
+  import operator as _op
+  OPS = {'<': _op.lt, '<=': _op.le, '>': _op.gt, '>=': _op.ge, '==': _op.eq, '!=': _op.ne}
+  for ed, nd, must_raise in [(True, 2, False), (True, 1, True), (True, 3, True), (False, 1, False), (False, 2, False), (False, 3, False), (False, 0, True)]:
+    def oracle(c, nd=nd):
+      if c.op == 'cmp' and c.args[0] in OPS:
+        l, r_ = c.args[1], c.args[2]
+        if l.op == 'attr' and l.args[1] == 'ndim' and is_const(r_) and isinstance(cval(r_), int):
+          return bool(OPS[c.args[0]](nd, cval(r_)))
+      return None
+    evv = evaluator(m, decide=Decider(extra=oracle))
+    evv.run(fq, args={'quantized_dtype': ext('jax.numpy.int8'), 'extract_diagonal': const(ed)})
+    raised = any(fq_ == fq.fq and all(pc.op in ('inloop',) for pc in path) for e_, path, fq_, node in evv.raises)
+    ctx.ob('C11.Q5', fq.short, f'validation [extract_diagonal={ed}, rank={nd}]', raised == must_raise,
+           f'quantize(extract_diagonal={ed}) on a rank-{nd} input {"must be rejected" if must_raise else "is valid and must not be rejected"}; '
+           f'the code {"raises" if raised else "does not raise"}', ctx.loc(fq), sample=f'rank {nd}, diag={ed}: {"ValueError" if must_raise else "ok"}')
 
   # from_float_value
   for dt, ed in itertools.product(['float32', 'int8'], [False, True]):
